@@ -319,19 +319,23 @@ Theorem C08_net_place_move : forall nodes s a,
      (s' = s /\ r = Err E_KEY /\ ~ In n nodes)) /\
   (forall n0 n s' r, npos s a = Some n0 -> nstep nodes s (NMove a n) = (s', r) ->
      (r = Ok [] /\ In n nodes /\ npos s' a = Some n /\ (forall b, b <> a -> npos s' b = npos s b)) \/
-     (r = Err E_KEY /\ ~ In n nodes /\ npos s' a = None /\ (forall b, b <> a -> npos s' b = npos s b))).
+     (r = Err E_KEY /\ ~ In n nodes /\ s' = s)).
 Proof. exact net_place_move. Qed.
 Print Assumptions C08_net_place_move.
 
-(* --- (C18) NetworkGrid.move_agent towards a node that does not exist is NOT atomic in the current tree:
-       KeyError is raised after the agent has been taken off its node (known finding; fixes/C08-4 proposes the repair).
-       Full statement, refuted:  nstep nodes s o = (s', Err e) -> nobs_state nodes n s' = nobs_state nodes n s *)
-Theorem C08_net_move_unknown_node_atomic_refuted :
-  exists nodes s a n s' e,
-    NAgree nodes s /\ nstep nodes s (NMove a n) = (s', Err e) /\
-    nobs_state nodes 1 s' <> nobs_state nodes 1 s /\ npos s a = Some 0 /\ npos s' a = None.
-Proof. exact net_move_unknown_node_not_atomic. Qed.
-Print Assumptions C08_net_move_unknown_node_atomic_refuted.
+(* --- (C18, NetworkGrid sites; fixes/C08-4 is in the tree) a NetworkGrid call that raises - place_agent /
+       move_agent towards a node that is not in the graph - leaves the state literally unchanged, at every point of
+       every history, and every continuation is observed as if the call had not been made *)
+Theorem C08_net_rejected_call_changes_nothing : forall nodes s o s' e,
+  NAgree nodes s -> nstep nodes s o = (s', Err e) -> s' = s.
+Proof. exact C18_networkgrid_atomic. Qed.
+Print Assumptions C08_net_rejected_call_changes_nothing.
+
+Theorem C08_net_rejected_call_continue : forall nodes n s o s' e rest,
+  NAgree nodes s -> nstep nodes s o = (s', Err e) ->
+  nrun_obs nodes n s' rest = nrun_obs nodes n s rest /\ nrun nodes s' rest = nrun nodes s rest.
+Proof. exact C18_networkgrid_atomic_continue. Qed.
+Print Assumptions C08_net_rejected_call_continue.
 
 (* ================================================================== code-level T1 (round 2)
    The definitions gen_* are regenerated from mesa/space.py on every run (harness/tables/legacy_space_code.py):
@@ -523,5 +527,6 @@ Example C08_example_round3 :
   view_form ex_cfg_m s (FCellList [(2, 0)] true) = Ok [0; 2; 3] /\
   let t := nrun [3; 0; 7] ninit [NPlace 1 0; NPlace 2 0; NMove 1 7; NPlace 3 9] in
   NoDup [3; 0; 7] /\ npos t 1 = Some 7 /\ npos t 3 = None /\ ncontents t [3; 0; 7] = [2; 1] /\
-  snd (nstep [3; 0; 7] t (NMove 2 11)) = Err E_KEY.
+  snd (nstep [3; 0; 7] t (NMove 2 11)) = Err E_KEY /\ npos (fst (nstep [3; 0; 7] t (NMove 2 11))) 2 = Some 0 /\
+  snd (nstep [3; 0; 7] t (NPlace 3 9)) = Err E_KEY.
 Proof. vm_compute. repeat split; try congruence. repeat constructor; cbn; intuition congruence. Qed.
